@@ -826,6 +826,9 @@ class Element(object):
             if old_parent is not None and old_parent is not parent and \
                     any(c is self for c in old_parent.children.list):
                 old_parent.children.remove(self)
+        elif old_parent is not None and any(c is self for c in old_parent.children.list):
+            # detached (element.parent = None): the previous parent does not list it any more
+            old_parent.children.remove(self)
 
     parent = property(_get_parent, _set_parent,
                       doc="The parent :class:`Element <hl7apy.core.Element>` of this one")
